@@ -964,6 +964,48 @@ func ruleC03c(c *Ctx) {
 				}
 			}
 		}
+		// a root claims a URL only after every one of its tokens was examined: the token loop is left towards a
+		// positive answer only through its own exhaustion test
+		early := ""
+		for _, b := range scorer.Blocks {
+			if !cyc[b] {
+				continue
+			}
+			for _, sc := range b.Succs {
+				if cyc[sc] && reachableAfter(sc, nil)[b] {
+					continue // stays in the loop
+				}
+				// an exit edge: fine from the block that tests the loop index against the number of tokens
+				isHeader := false
+				if iff, ok := b.Instrs[len(b.Instrs)-1].(*ssa.If); ok {
+					if bo, ok := iff.Cond.(*ssa.BinOp); ok && (bo.Op == token.LSS || bo.Op == token.GEQ || bo.Op == token.GTR || bo.Op == token.LEQ) {
+						for _, side := range []ssa.Value{bo.X, bo.Y} {
+							if call, ok := strip(side).(*ssa.Call); ok && isBuiltinCall(call, "len") {
+								isHeader = true
+							}
+							if _, ok := strip(side).(*ssa.Const); ok && b.Comment == "rangeindex.loop" {
+								isHeader = true
+							}
+						}
+					}
+					if b.Comment == "rangeindex.loop" || b.Comment == "for.loop" {
+						isHeader = true
+					}
+				}
+				if isHeader {
+					continue
+				}
+				// any other exit must not be able to answer "matches"
+				for rb := range reachableBlocks([]*ssa.BasicBlock{sc}, nil) {
+					if r, ok := rb.Instrs[len(rb.Instrs)-1].(*ssa.Return); ok && len(r.Results) == 2 {
+						if v, isC := constBool(r.Results[0]); !isC || v {
+							early = "the token loop can be left at " + p.ipos(b.Instrs[len(b.Instrs)-1]) + " towards a positive answer before all tokens were compared"
+						}
+					}
+				}
+			}
+		}
+		c.check(early == "", name, "a root matches only after all its tokens were compared", p.pos(scorer.Pos()), "the token loop reaches a positive answer only through its exhaustion", early+": a root whose first tokens match claims URLs whose later tokens differ")
 		c.check(unchanged == "", name, "every matched token increments the score before the next one is examined", p.pos(scorer.Pos()), "no path through the loop body leaves the accumulator unchanged", unchanged+": two roots that differ only in such tokens tie, and registration order decides")
 		c.check(minWeighted < 1<<40 && minWeighted > maxConst, name, "a literal token adds strictly more than a variable token", p.pos(scorer.Pos()),
 			"literal >= "+itoa(int(minWeighted))+" (position weight, index < len proven by the loop test), variable/empty = "+itoa(int(maxConst)),
